@@ -98,6 +98,9 @@ func (calc *RewardCalculator) Calculate() (amt *balance.Amount, err error) {
 	if err != nil {
 		// never happen by design
 		logger.Errorf("Year rewards burned out unexpectedly, year= %v", year+1)
+		// forget the previous cycle's amount: a node restarted later in this cycle has no
+		// cached amount either, and every node must take the same path for the rest of the cycle
+		calc.cached = NewRewardCached()
 		return
 	}
 
